@@ -26,14 +26,14 @@ ASSUMPTIONS = [
     "ProcessPoolExecutor uses the fork start method (Python 3.12 on Linux), so the wrapper installed in the parent is what the workers run",
     "a driver call that does not return within the shard watchdog is reported INCONCLUSIVE, not as a violation",
 ]
-MIN_NONTRIVIAL = {"quick": 150, "thorough": 1500}
-TIMEOUT = {"quick": 1500, "thorough": 3400}
+MIN_NONTRIVIAL = {"quick": 150, "thorough": 3600}
+TIMEOUT = {"quick": 1500, "thorough": 7000}
 SHAPES = [(1, 1), (1, 4), (3, 1), (2, 3), (4, 2)]
 MAX_SHARDS = 12
 
 
 def cases(tier, seed):
-    n = 40 if tier == "quick" else 400
+    n = 40 if tier == "quick" else 1200
     return [{"seed": seed, "idx": i, "shape": SHAPES[i % len(SHAPES)], "_cost": SHAPES[i % len(SHAPES)][0] * SHAPES[i % len(SHAPES)][1] + 2}
             for i in range(n)]
 
